@@ -237,6 +237,10 @@ func GenWModel(rng *rand.Rand) *Model {
 			for _, pt := range parents[pn] {
 				r.Restr = append(r.Restr, Ref{Type: pt, Cond: conds[rng.Intn(len(conds))]})
 			}
+			if rng.Intn(12) == 0 {
+				// a tupleset relation without type restrictions (a plain rewrite): every TTU over it is invalid
+				r = Rel{Name: pn, Rewrite: CU(defs[t][0])}
+			}
 			ty.Rels = append(ty.Rels, r)
 		}
 		for ri, rn := range defs[t] {
